@@ -713,7 +713,35 @@ func (db *Default) removeDevice(ctx context.Context, id agd.DeviceID) {
 	db.mapsMu.Lock()
 	defer db.mapsMu.Unlock()
 
+	// Recheck under the write lock, since the database may have been refreshed
+	// since the lookup that started this goroutine.
+	if p, _ := db.attachedDevice(id); p != nil {
+		return
+	}
+
 	delete(db.deviceIDToProfileID, id)
+}
+
+// attachedDevice returns the profile and the device for the given device ID if
+// the device is still attached to a known profile.  Otherwise, p and d are nil.
+// It has no side effects and assumes that db.mapsMu is locked.
+func (db *Default) attachedDevice(id agd.DeviceID) (p *agd.Profile, d *agd.Device) {
+	profID, ok := db.deviceIDToProfileID[id]
+	if !ok {
+		return nil, nil
+	}
+
+	p, ok = db.profiles[profID]
+	if !ok || !slices.Contains(p.DeviceIDs, id) {
+		return nil, nil
+	}
+
+	d = db.devices[id]
+	if d == nil {
+		return nil, nil
+	}
+
+	return p, d
 }
 
 // removeDedicatedIP removes the device link for the given dedicated IP address
@@ -723,6 +751,15 @@ func (db *Default) removeDedicatedIP(ctx context.Context, ip netip.Addr) {
 
 	db.mapsMu.Lock()
 	defer db.mapsMu.Unlock()
+
+	// Recheck under the write lock, since the database may have been refreshed
+	// since the lookup that started this goroutine.
+	id, ok := db.dedicatedIPToDeviceID[ip]
+	if !ok {
+		return
+	} else if _, d := db.attachedDevice(id); d != nil && slices.Contains(d.DedicatedIPs, ip) {
+		return
+	}
 
 	delete(db.dedicatedIPToDeviceID, ip)
 }
@@ -791,6 +828,15 @@ func (db *Default) removeHumanID(ctx context.Context, k humanIDKey) {
 	db.mapsMu.Lock()
 	defer db.mapsMu.Unlock()
 
+	// Recheck under the write lock, since the database may have been refreshed
+	// since the lookup that started this goroutine.
+	id, ok := db.humanIDToDeviceID[k]
+	if !ok {
+		return
+	} else if p, d := db.attachedDevice(id); d != nil && p.ID == k.profile && d.HumanIDLower == k.lower {
+		return
+	}
+
 	delete(db.humanIDToDeviceID, k)
 }
 
@@ -855,6 +901,15 @@ func (db *Default) removeLinkedIP(ctx context.Context, ip netip.Addr) {
 
 	db.mapsMu.Lock()
 	defer db.mapsMu.Unlock()
+
+	// Recheck under the write lock, since the database may have been refreshed
+	// since the lookup that started this goroutine.
+	id, ok := db.linkedIPToDeviceID[ip]
+	if !ok {
+		return
+	} else if _, d := db.attachedDevice(id); d != nil && d.LinkedIP == ip {
+		return
+	}
 
 	delete(db.linkedIPToDeviceID, ip)
 }
